@@ -4,6 +4,7 @@
 // the secret keys in integer arithmetic, no FFT in the oracle); the driver applies 8-sigma tests.
 #include "hmain.hpp"
 #include "bklib.hpp"
+#include <thread>
 using namespace vf;
 
 static const int N = 1024;
@@ -56,15 +57,21 @@ static std::string seeding_case(const J &c) {
     uint64_t s = (uint64_t)c["s"].i(), s2 = (uint64_t)c["s2"].i();
     seed_lib(s, 0xC07u); lweKeyGen(K); tLweKeyGen(TK);
     std::string why;
-    // (a) same seed, different histories before the re-seeding -> identical key + ciphertext
+    // (a) same seed, different histories before the re-seeding -> identical key + ciphertext, whichever thread draws
     uint64_t href = 0;
+    const int thr = (int)c["thread"].i(); // 0: all on this thread; 1: second variant draws on a worker thread; 2: history on a worker thread too
     for (int v = 0; v < 2 && why.empty(); v++) {
-        history(c[v ? "h2" : "h1"], K, TK);
+        if (thr == 2 && v == 1) { std::thread t([&]() { history(c["h2"], K, TK); }); t.join(); } else history(c[v ? "h2" : "h1"], K, TK);
         seed_lib(s2, 0xC07u);
-        LweKey *k2 = new_LweKey(P); lweKeyGen(k2);
-        uint64_t h = hash_words(k2->key, (size_t)n * 4, 1) ^ enc_hash(k2, 12345, 1e-4) ^ (enc_hash(k2, 12345, 1e-4) << 1);
-        delete_LweKey(k2);
-        if (v == 0) href = h; else if (h != href) why = "re-seeding with the same seed after a different history gives different keys/ciphertexts";
+        uint64_t h = 0;
+        auto draw = [&]() { LweKey *k2 = new_LweKey(P); lweKeyGen(k2); h = hash_words(k2->key, (size_t)n * 4, 1) ^ enc_hash(k2, 12345, 1e-4) ^ (enc_hash(k2, 12345, 1e-4) << 1); delete_LweKey(k2); };
+        if (thr >= 1 && v == 1) { std::thread t(draw); t.join(); } else draw();
+        if (v == 0) href = h; else if (h != href) why = thr ? "the generator is not process-global: seeding on one thread does not determine what another thread draws (same seed, different keys/ciphertexts)" : "re-seeding with the same seed after a different history gives different keys/ciphertexts";
+    }
+    if (why.empty() && thr) { // different seeds must give different draws on a worker thread as well
+        uint64_t d[2];
+        for (int v = 0; v < 2; v++) { seed_lib(s2 + 77 * v, 0xC07u); std::thread t([&]() { d[v] = enc_hash(K, 5, 1e-4); }); t.join(); }
+        if (d[0] == d[1] && n >= 2) why = "a worker thread draws the same values whatever seed was set";
     }
     // (b) two encryptions of the same message differ; a different seed gives different output
     if (why.empty()) {
@@ -94,7 +101,7 @@ int main(int argc, char **argv) {
         H.rc_loop("C07 all randomness comes from the library generator: seeding reproduces, differs, and is history independent", [&]() {
             J c = J::object();
             auto hist = rc::gen::container<std::vector<int>>(rng<int>(0, 5));
-            c.set("n", *rng<int>(1, 40)).set("s", *genSeed()).set("s2", *genSeed()).set("h1", J::arr(*rc::gen::resize(6, hist))).set("h2", J::arr(*rc::gen::resize(6, hist)));
+            c.set("thread", *rc::gen::weightedElement<int>({{3, 0}, {1, 1}, {1, 2}})).set("n", *rng<int>(1, 40)).set("s", *genSeed()).set("s2", *genSeed()).set("h1", J::arr(*rc::gen::resize(6, hist))).set("h2", J::arr(*rc::gen::resize(6, hist)));
             return c;
         });
         return H.finish();
@@ -185,6 +192,13 @@ int main(int argc, char **argv) {
     if (H.mode == "keyset") { // default key set: gate-API encryptions, every key-switching row, every bootstrapping row coefficient, key bits
         sample_desc("keyset");
         int lambda = (int)A.i("lambda", 128);
+        if (A.has("first")) { // another key set (other noise levels) is generated first in the same process: history of key generation must not matter
+            TFheGateBootstrappingParameterSet *p0 = new_default_gate_bootstrapping_parameters((int)A.i("first"));
+            seed_lib(seed + 99, 0xC07Eu);
+            TFheGateBootstrappingSecretKeySet *k0 = new_random_gate_bootstrapping_secret_keyset(p0);
+            LweSample *c0 = new_gate_bootstrapping_ciphertext(p0); bootsSymEncrypt(c0, 1, k0); delete_gate_bootstrapping_ciphertext(c0);
+            delete_gate_bootstrapping_secret_keyset(k0); delete_gate_bootstrapping_parameters(p0);
+        }
         KeySet &K = get_keyset(lambda, seed);
         const LweKey *sk = K.sk->lwe_key;
         const int n = K.n;
